@@ -65,6 +65,7 @@ type c17Row struct {
 	choices              bool
 	namespaced           bool // the row sits in a group with a namespace (the printed long name is longer than the declared one)
 	inHiddenParent       bool // that group is itself nested in a hidden group (the library prints such a group: it must then also measure it)
+	wide                 bool // many long choices: the description column lies beyond 64
 }
 
 func c17Script(s string, script int) string {
@@ -73,13 +74,15 @@ func c17Script(s string, script int) string {
 		return strings.Repeat("é", len(s))
 	case 2:
 		return strings.Repeat("中", len(s))
+	case 3:
+		return strings.Repeat("𠮷", len(s)) // 4 bytes, outside the Basic Multilingual Plane
 	}
 	return s
 }
 
 // word of n characters in the given script (no hyphens, no blanks)
 func c17Word(n int, script int, seed int) string {
-	letters := []string{"abcdefghij", "éàüöñçßøåæ", "中文字符测试数据甲乙"}[script]
+	letters := []string{"abcdefghij", "éàüöñçßøåæ", "中文字符测试数据甲乙", "𠮷𠀋𡈽𠮟𩸽𠂤𠁣𠃊𠄀𠅘"}[script]
 	r := []rune(letters)
 	var b strings.Builder
 	for i := 0; i < n; i++ {
@@ -153,6 +156,15 @@ func c17Build(key string, row c17Row, onCmd bool, wide bool, posVariant int, pat
 	nsGroup := &decl.Group{Field: "NsG", Name: "Namespaced", Namespace: "namespace-of-group", Opts: []*decl.Opt{u}}
 	if row.inHiddenParent {
 		nsGroup = &decl.Group{Field: "HidP", Name: "HiddenParent", Hidden: true, Groups: []*decl.Group{nsGroup}}
+	} else if row.namespaced && row.choices {
+		// (rows flagged namespaced+choices: the namespaced group is itself nested in another namespaced group)
+		nsGroup = &decl.Group{Field: "OutNs", Name: "OuterNamespaced", Namespace: "outer-namespace", Groups: []*decl.Group{nsGroup}}
+	}
+	if row.namespaced && row.choices {
+		u.Choices = nil
+	}
+	if row.wide {
+		u.Choices = []string{"trace", "debug", "info", "notice", "warning", "error", "fatal", "panic-now"}
 	}
 	if onCmd {
 		top.Opts = []*decl.Opt{first}
@@ -220,12 +232,16 @@ func init() {
 				}
 				for _, vn := range []string{"", "VAL", "VÄLÜ"} {
 					for _, ch := range []bool{false, true} {
-						rows = append(rows, c17Row{c17Script(ll, script), sh, vn, ch, false, false})
+						rows = append(rows, c17Row{c17Script(ll, script), sh, vn, ch, false, false, false})
 					}
 				}
 				if ll != "" {
-					rows = append(rows, c17Row{c17Script(ll, script), sh, "", false, true, false})
-					rows = append(rows, c17Row{c17Script(ll, script), sh, "", false, true, true})
+					rows = append(rows, c17Row{c17Script(ll, script), sh, "", false, true, false, false})
+					rows = append(rows, c17Row{c17Script(ll, script), sh, "", false, true, true, false})
+					rows = append(rows, c17Row{c17Script(ll, script), sh, "", true, true, false, false}) // nested namespaces
+					if script == 0 {
+						rows = append(rows, c17Row{c17Script(ll, script), sh, "LEVEL", true, false, false, true}) // very wide row
+					}
 				}
 			}
 		}
@@ -240,13 +256,13 @@ func init() {
 			npat = 8
 		}
 		pi := c.Choose(npat)
-		dscript := c.Choose(3)
+		dscript := c.Choose(4)
 		pat := c17Patterns[pi]
 		lf := 0
 		if len(pat) >= 2 {
 			lf = c.Choose(3) // 0 none, 1 after the marker, 2 after the first word
 		}
-		maxW := 130
+		maxW := 100
 		if c.Thorough {
 			maxW = 300
 		}
@@ -407,13 +423,13 @@ func init() {
 		ShardDepth: 4,
 		Body:       body,
 		Setup:      c17Setup,
-		Rule: "row under test: long name of 0/1/5/20 characters in {ASCII, 2-byte, 3-byte} script x short name {none, ASCII, é} x value name {none, ASCII, non-ASCII} x choices?, plus every named row inside a group with a long namespace, alone and nested in a hidden group (180 rows), last of its block, on the parser or on an active command (indented) " +
-			"x neighbour row {widest of all, 1-character} x described positional {none, ASCII name, non-ASCII name} x description = marker word + word-length pattern (8 quick / 16 thorough patterns over lengths 1,5,9,10,11,25,40) in {ASCII, 2-byte, 3-byte} script x embedded line break {none, after marker, after first word} " +
-			"x every terminal width 1..130 (quick) / 1..300 (thorough), set with TIOCSWINSZ on a real pty whose slave is fd 0 (the library's own ioctl reads it); oracle: no panic; all descriptions (found through their marker words) start in one character column; " +
+		Rule: "row under test: long name of 0/1/5/20 characters in {ASCII, 2-byte, 3-byte} script x short name {none, ASCII, é} x value name {none, ASCII, non-ASCII} x choices?, plus every named row inside a group with a long namespace, alone, nested in a hidden group, nested in a second namespaced group, and a row with eight long choices (column beyond 64), last of its block, on the parser or on an active command (indented) " +
+			"x neighbour row {widest of all, 1-character} x described positional {none, ASCII name, non-ASCII name} x description = marker word + word-length pattern (8 quick / 16 thorough patterns over lengths 1,5,9,10,11,25,40) in {ASCII, 2-byte, 3-byte, 4-byte (non-BMP)} script x embedded line break {none, after marker, after first word} " +
+			"x every terminal width 1..100 (quick) / 1..300 (thorough), set with TIOCSWINSZ on a real pty whose slave is fd 0 (the library's own ioctl reads it); oracle: no panic; all descriptions (found through their marker words) start in one character column; " +
 			"every continuation line is exactly that many blanks + text; all lines valid UTF-8; joining hyphen breaks gives back the original word sequence; no description line longer than the width while width - column >= 10; distinct = distinct (column, width asserted?, script, line count)",
 		Assumptions:  []string{"columns are counted in characters (East-Asian display width is not modelled)", "descriptions contain no hyphens and no empty lines"},
 		RequiredHits: []string{"rendered", "wrapped", "width-asserted"},
-		Bound:        [2]string{"widths 1..130, 8 description patterns", "widths 1..300, 16 description patterns"},
+		Bound:        [2]string{"widths 1..100, 8 description patterns", "widths 1..300, 16 description patterns"},
 		BudgetS:      [2]int{110, 1500},
 	})
 }
